@@ -1,7 +1,7 @@
 (* C02 — value is conserved: trades at the current price change total value only by explicit costs.
    Statements only; proofs in Proofs/TradeProofs.v and Proofs/TreeInv.v. *)
 From Coq Require Import Reals List.
-Require Import BT.Num BT.Base BT.Records BT.Engine BT.Proofs.SecInv BT.Proofs.TreeInv BT.Proofs.TradeProofs.
+Require Import BT.Num BT.Base BT.Records BT.Engine BT.Proofs.SecInv BT.Proofs.TreeInv BT.Proofs.TradeProofs BT.Proofs.LedgerProofs BT.Proofs.ValueProofs.
 Local Open Scope R_scope.
 
 (* buying or selling quantity q at the current (or a custom) price: the parent's cash after booking plus the
@@ -21,3 +21,27 @@ Theorem C02_value_is_cash_plus_children : forall (A : Type) ps date inow (n n' :
   node_update ps date inow n = Ok n' -> WF n -> BS n' /\ WF n'.
 Proof. exact node_update_BS. Qed.
 Print Assumptions C02_value_is_cash_plus_children.
+
+(* Strategy level (children = securities on the strategy's date, each with a price): one StrategyBase.allocate(amount)
+   — any amount, any commission function, spreads, whole or fractional units incl. the sizing search, any number of
+   children traded — changes  cash + sum(position x price x multiplier)  by exactly the amount received minus the
+   bid/offer recorded by the securities minus the fees recorded by the node; transact(q) by minus those costs only *)
+Theorem C02_allocate_changes_worth_only_by_flow_and_costs :
+  forall (A : Type) pnow comm amount upd (g g' : strat RNumI A) kids kids' lz pp lz' pp' oa,
+  let i := row_of (g_now g) in
+  ready A (g_now g) i kids ->
+  node_allocate pnow comm amount upd (NStrat g kids lz pp) = Ok (NStrat g' kids' lz' pp', oa) ->
+  worth A g' kids' - worth A g kids =
+  amount - (sum_secs A (@s_bidoffer_paid RNumI) kids' - sum_secs A (@s_bidoffer_paid RNumI) kids) - (g_last_fee g' - g_last_fee g).
+Proof. exact flat_allocate_value. Qed.
+Print Assumptions C02_allocate_changes_worth_only_by_flow_and_costs.
+
+Theorem C02_transact_changes_worth_only_by_costs :
+  forall (A : Type) pnow comm q upd (g g' : strat RNumI A) kids kids' lz pp lz' pp' oa,
+  let i := row_of (g_now g) in
+  ready A (g_now g) i kids ->
+  node_transact pnow comm q upd (NStrat g kids lz pp) = Ok (NStrat g' kids' lz' pp', oa) ->
+  worth A g' kids' - worth A g kids =
+  - (sum_secs A (@s_bidoffer_paid RNumI) kids' - sum_secs A (@s_bidoffer_paid RNumI) kids) - (g_last_fee g' - g_last_fee g).
+Proof. exact flat_transact_value. Qed.
+Print Assumptions C02_transact_changes_worth_only_by_costs.
